@@ -58,6 +58,7 @@ UrlV(L) ==
 
 \* ---- file names: every law is stated about the OBSERVED str() --------------
 Eq(a, b) == F!StripSep(a) = F!StripSep(b)      \* results pass through the constructor again
+NoBsl(s) == [i \in DOMAIN s |-> IF s[i] = "\\" THEN F!SEP ELSE s[i]]
 
 FnV(L) ==
   LET f   == L.obs.str
@@ -67,7 +68,7 @@ FnV(L) ==
              ELSE IF L.a = "FnRecompose" THEN F!RecomposeCls(f)
              ELSE F!Cls(f)                    \* the class of the file name, whatever the constructor was given
       bad ==
-        IF ~Eq(f, L.arg.s) THEN "str"          \* the file name is the argument up to trailing separators
+        IF ~Eq(f, NoBsl(L.arg.s)) THEN "str"   \* the file name is the argument with '\' spelled '/', up to trailing separators
         ELSE IF L.a = "FnSplit" THEN           \* both constructors, both conversions, the decomposition
              FirstBad(<<"base", "conv", "cstr", "eq_self", "ne_self", "path", "str_c", "streamed">>,
                       [path |-> F!PathOf(f), base |-> b, str_c |-> f, conv |-> f, cstr |-> f, streamed |-> f,
